@@ -58,7 +58,7 @@ def _mk():
     add('square', lambda x, c: algopy.square(x), 'square', lambda x0, c: [], cplx=True, f=lambda z: z * z)
     add('negative', lambda x, c: algopy.negative(x), 'neg', lambda x0, c: [], cplx=True, f=lambda z: -z)
     # powers: python int >= 0 (all x0), python int < 0 and float exponents (x0 > 0)
-    add('pow_nat', lambda x, c: x ** int(c['r']), 'pownat', lambda x0, c: [], n=lambda c: int(c['r']),
+    add('pow_nat', lambda x, c: x ** (int(c['r']) if int(c['r']) % 2 == 0 else np.int64(c['r'])), 'pownat', lambda x0, c: [], n=lambda c: int(c['r']),
         prm=lambda rng: {'r': rng.choice([0, 1, 2, 3, 4, 5, 5, 8, 16, 17, 21])}, cplx=True, f=None)
     add('pow_negint', lambda x, c: x ** int(c['r']), 'powreal', lambda x0, c: [x0 ** int(c['r'])], dom='pos',
         params=lambda c: [c['r']], prm=lambda rng: {'r': rng.choice([-1, -2, -3])}, f=None)
